@@ -187,7 +187,7 @@ def stderr_tail(proc, n=300):
     except Exception:
         return ''
 
-def wait_ports(proc, ports, timeout=8.0):
+def wait_ports(proc, ports, timeout=20.0):
     t0 = time.time()
     while time.time() - t0 < timeout:
         if proc.poll() is not None:
@@ -240,19 +240,26 @@ def run_occupied(out, binp, rng, hi):
 def run_config(out, binp, rng, hi):
     if hi % 6 == 5:
         return run_occupied(out, binp, rng, hi)
-    cfg = gen_config(rng)
     base = os.environ.get('VERIF_SCRATCH', '/dev/shm')
-    work = tempfile.mkdtemp(prefix='tcsc17', dir=base if os.path.isdir(base) else None)
-    datadir = os.path.join(work, cfg['dirname'])
     proc = None
+    work = None
     try:
-        argv, env = argv_env(cfg, datadir)
+        # ports are chosen by binding and releasing them: another process (a parallel shard, another job on the machine) can
+        # take one in between. A start that fails with "address in use" says nothing about the server: draw again.
+        for attempt in range(4):
+            cfg = gen_config(rng)
+            if work: shutil.rmtree(work, ignore_errors=True)
+            work = tempfile.mkdtemp(prefix='tcsc17', dir=base if os.path.isdir(base) else None)
+            datadir = os.path.join(work, cfg['dirname'])
+            argv, env = argv_env(cfg, datadir)
+            proc = start(binp, argv, env, log=cfg['log'])
+            ok = wait_ports(proc, cfg['ports'])
+            if ok or proc.poll() is None or 'in use' not in stderr_tail(proc, 2000).lower():
+                break
         cli = cfg['cli']
         exp = expected(cli)
         allow = exp['allow']
         out.write(f"run h={hi} setup=binary backend=sql entry=http binary=1 days={exp['days']} versions={exp['versions']} allow={'none' if allow is None else ','.join(allow)} clients=\n")
-        proc = start(binp, argv, env, log=cfg['log'])
-        ok = wait_ports(proc, cfg['ports'])
         up = [p for p in cfg['ports'] if listening(p)]
         # addresses from the environment that must NOT be served when a flag is given: port 1 is never ours
         out.write(f"# i=0 op=config listenmode={'short' if cfg.get('short') else 'x'} rustlog={cfg['log'] or 'unset'} expected_ports={','.join(map(str, cfg['ports']))}\n")
@@ -554,7 +561,7 @@ def run_crashbin(out, binp, rng, hi):
             pass
         if proc is not None and proc.poll() is None:
             proc.kill(); proc.wait()
-        shutil.rmtree(work, ignore_errors=True)
+        if work: shutil.rmtree(work, ignore_errors=True)
         out.write(f"end h={hi} dead=0\n")
 
 def main(out_path, seed, first, n, mode='config'):
